@@ -95,7 +95,11 @@ func TestC03(t *testing.T) {
 		if rapid.IntRange(0, 3).Draw(rt, "namecollision") == 0 {
 			addNameCollision(rt, c, f)
 		}
-		cs := caseOf(baseConfig(), []string{f.RelPath}, f)
+		files := []*model.File{f}
+		if rapid.IntRange(0, 3).Draw(rt, "samelocalref") == 0 {
+			files = append(files, addSameLocalRefSibling(rt, c, f))
+		}
+		cs := caseOf(baseConfig(), []string{f.RelPath}, files...)
 		jobs := buildJobs(rt, c, f.Root, progRoot, plan, o, cs)
 		// explicit nulls at every nullable position of an all-present document
 		oo := *o
@@ -175,4 +179,34 @@ func addNameCollision(t *rapid.T, c *core.Ctx, f *model.File) {
 		f.Root.Required = append(f.Root.Required, "colpet", "colother")
 	}
 	c.Count("shape.name_collision")
+}
+
+// addSameLocalRefSibling: the main file and a sibling file (referenced as a whole)
+// both contain "allOf": [{"$ref": "#/$defs/Base"}, ...] with their OWN definition
+// Base, typed differently: a local reference must resolve inside its own document.
+func addSameLocalRefSibling(t *rapid.T, c *core.Ctx, f *model.File) *model.File {
+	kinds := rapid.Permutation([]model.Kind{model.KString, model.KInteger, model.KBoolean, model.KNumber}).Draw(t, "siblingkinds")
+	mk := func(k model.Kind, ak model.Kind, extra string) (*model.Node, *model.Node) {
+		base := &model.Node{Kind: model.KObject, Props: []model.Prop{
+			{Name: "id", Node: &model.Node{Kind: k}},
+			{Name: "tags", Node: &model.Node{Kind: model.KArray, Items: &model.Node{Kind: ak}}},
+		}, Required: []string{"id"}}
+		comp := &model.Node{Kind: model.KAllOf, Branches: []*model.Node{
+			{Kind: model.KRef, Ref: "#/$defs/Base", Target: base},
+			{Kind: model.KObject, Props: []model.Prop{{Name: extra, Node: &model.Node{Kind: model.KBoolean}}}},
+		}}
+		return base, comp
+	}
+	baseA, compA := mk(kinds[0], kinds[1], "qa")
+	baseB, compB := mk(kinds[1], kinds[0], "qb")
+	sib := &model.File{RelPath: "sibling.json", ID: "https://example.com/sibling",
+		Root: &model.Node{Kind: model.KObject, Props: []model.Prop{{Name: "item", Node: compB}}, Required: []string{"item"}},
+		Defs: []model.Def{{Name: "Base", Node: baseB}}}
+	f.Defs = append(f.Defs, model.Def{Name: "Base", Node: baseA})
+	f.Root.Props = append(f.Root.Props,
+		model.Prop{Name: "ownitem", Node: compA},
+		model.Prop{Name: "sibling", Node: &model.Node{Kind: model.KRef, Ref: "sibling.json", Target: sib.Root}})
+	f.Root.Required = append(f.Root.Required, "ownitem", "sibling")
+	c.Count("shape.same_local_ref_in_two_files")
+	return sib
 }
